@@ -238,13 +238,13 @@ func (el *eventloop) open(c *conn) error {
 	}
 	if out != nil {
 		if err := c.open(out); err != nil {
-			return err
+			return el.close(c, os.NewSyscallError("write", err))
 		}
 	}
 
 	if !c.outboundBuffer.IsEmpty() && !el.engine.opts.EdgeTriggeredIO {
 		if err := el.poller.ModReadWrite(&c.pollAttachment, false); err != nil {
-			return err
+			return el.close(c, err)
 		}
 	}
 
